@@ -54,7 +54,7 @@ _STATS = re.compile(r"(\d+) states generated, (\d+) distinct states found")
 _DEPTH = re.compile(r"The depth of the complete state graph search is (\d+)")
 
 
-def run_tlc(module, cfg, env=None, workers=16, extra=(), timeout=3600, xmx="4g", deque=False):
+def run_tlc(module, cfg, env=None, workers=16, extra=(), timeout=3600, xmx="4g", deque=False, tol=None):
     """Run TLC on spec/<module>.tla with spec/<cfg>.  Returns dict(out, rc, generated, distinct, depth, wall)."""
     ensure_built()
     meta = scratch("meta")
@@ -62,6 +62,8 @@ def run_tlc(module, cfg, env=None, workers=16, extra=(), timeout=3600, xmx="4g",
     if env:
         e.update(env)
     jopts = (["-XX:+UseSerialGC", "-XX:TieredStopAtLevel=1"] if workers == 1 else ["-XX:+UseParallelGC"]) + ["-Xmx" + xmx]
+    if tol is not None:
+        jopts.append("-Dnum.tol=%s" % tol)
     if deque:
         jopts.append("-Dtlc2.tool.queue.IStateQueue=StateDeque")
     cmd = ["java"] + jopts + ["-cp", JAR, "tlc2.TLC", "-workers", str(workers), "-metadir", meta,
@@ -100,7 +102,7 @@ def model_check(module, cfg=None, workers=16, extra=(), timeout=3600, require_ac
     """Exhaustive TLC run of an MC_ instance; any error is a machinery error (the model does not
     depend on the code).  Returns stats dict."""
     cfg = cfg or module + ".cfg"
-    res = run_tlc(module, cfg, workers=workers, extra=["-coverage", "1"] + list(extra), timeout=timeout, xmx=xmx)
+    res = run_tlc(module, cfg, workers=workers, extra=["-coverage", "1"] + list(extra), timeout=timeout, xmx=xmx, tol="0")
     err = tlc_error(res)
     if err or "Model checking completed. No error has been found." not in res["out"]:
         raise MachineryError("model %s/%s failed:\n%s" % (module, cfg, err or res["out"][-3000:]))
